@@ -4,19 +4,87 @@ PROP = {
     "pkg": "internal/querylog",
     "files": ["querylog/c07_model_test.go", "querylog/c07_machine_test.go", "querylog/c07_props_test.go"],
     "level": "exploration",
-    "technique": "TODO",
-    "level_text": "TODO",
-    "level_note": "TODO",
+    "technique": "property-based testing (rapid): a state machine over record / flush / rotate / clear / settings "
+                 "change / restart against a reference model of the retained entries; every read goes through the "
+                 "registered handler of GET /control/querylog and is compared in both directions with the model "
+                 "(expected API item built from the recorded parameters, independent reference for search terms and "
+                 "response_status); metamorphic oracle (API form of an entry identical in memory, current file, "
+                 "rotated file and after restart); constructed memory/file/rotated-file layouts read with every page "
+                 "size by cursor and by offset; hostile-parameter crash oracle; round trip of the stored line through "
+                 "the hand-written decoder",
+    "level_text": "Generated histories (about 30 steps) of Add, shutdown-style flush, rotation (direct and through the "
+                  "rotation check), clear and settings changes over HTTP, restart on the same directory with another "
+                  "memory size (0, 1, 2-9, 20-50), memory-only mode; entries of every filtering reason with 0-3 rules "
+                  "(negative list ids, host-style rules with addresses), $dnsrewrite payloads (A/AAAA/PTR/MX/TXT/SRV, "
+                  "bare RCODE, empty), CNAME / address-list rewrites, blocked-service names, all client protocols, "
+                  "cached/AD flags, ECS, ClientID, IDN names, mixed-case wire names, the root name, real dns.Msg "
+                  "answers and original answers, timestamps owned by the model (gaps 1 ns .. 25 h, changing UTC "
+                  "offsets). After every step one large read must return exactly the retained entries, once each, "
+                  "newest first, each item equal to the form expected from the recorded parameters and to the form seen "
+                  "at any earlier time; the log files must hold exactly the lines the model places there. Drawn and "
+                  "systematic reads: every page size 1..n+1 by the returned older_than cursor (followed until the API "
+                  "reports no older entries) and by offset/limit, with and without search (substring, quoted exact, "
+                  "Unicode IDN labels, punycode, ClientID, client name, address) and all ten response_status values; "
+                  "pages must add up to the unpaged sequence. Hostile limit / offset / older_than / search / "
+                  "response_status values and malformed query strings must give 200 or 400 without a panic, and a 200 "
+                  "answer must be sound. Exploration: no absence claim.",
+    "level_note": "White-box only to drive: Add is called with the flush lock held so that the model's instant replaces "
+                  "time.Now() before anything can read the entry, and a flush started by Add is awaited before the next "
+                  "step (the excluded 'flush pending' window is never entered; the number of awaited flushes is "
+                  "reported). All verdicts are taken at the HTTP JSON and at the bytes of querylog.json(.1), except the "
+                  "stored-line test, which calls the decoder directly. Weakened to stated validity predicates: "
+                  "older_than values that are not a returned cursor (only soundness: returned entries are retained, "
+                  "older than the value, in order); client_info next to an anonymised address and null-vs-absent "
+                  "client_info; response_status for reason/IsFiltered pairs the filtering module does not produce; "
+                  "whether 'processed' covers safe browsing / parental / safe search / invalid; ASCII search terms "
+                  "holding a partial 'xn--' label; negative limit/offset (200 or 400 accepted). Not covered: ignored "
+                  "hosts and per-client ignore flags at read time (C08), lines of 16 KiB and more (C20), the 50000-line "
+                  "scan limit of unfiltered cursor reads, concurrent readers/writers (C05), host names with bytes that "
+                  "JSON escapes.",
     "tests": [
-        ("TestVFC07History", (100, 1000), {"steps": 30}),
-        ("TestVFC07Layout", (100, 1000)),
-        ("TestVFC07Params", (100, 1000)),
-        ("TestVFC07StoredLine", (1000, 10000)),
+        ("TestVFC07History", (80, 500), {"steps": 30}),
+        ("TestVFC07Layout", (80, 500)),
+        ("TestVFC07Params", (300, 3000)),
+        ("TestVFC07StoredLine", (1500, 20000)),
     ],
     "plain": ["TestVFC07RegressCursor", "TestVFC07RegressBounds"],
     "shards": (4, 16),
     "workers": (4, 16),
-    "rule": "TODO",
-    "assumptions": [],
+    "timeout": (900, 3600),
+    "rule": "One evaluation = one generated case: a history (state machine, ~30 steps, with the full-read and file "
+            "invariant after every step and drawn filtered / paged reads), a constructed layout (0-6 entries each in "
+            "rotated file, current file and memory, optional restarts, then every page size by cursor and by offset "
+            "plus drawn filters and all status values), a hostile-parameter case (0-10 entries, 4-12 requests) or one "
+            "stored line. Non-trivial = a paged read (>= 2 pages) whose sequence spans at least two of memory / "
+            "current file / rotated file and in which a page border falls on a storage boundary or a page straddles "
+            "one, distinct by (layout sizes, cursor|offset, page size, filter kind); a request with at least one "
+            "hostile parameter value, distinct by (layout, query string); a stored line carrying rules, a rewrite "
+            "payload, a canonical name, an address list or a service name, distinct by the line. Classes count the "
+            "individual requests and boundary kinds.",
+    "assumptions": [
+        "miekg/dns packs/unpacks and prints resource records correctly (the expected 'value' texts are the "
+        "presentation forms the records were built from)",
+        "encoding/json, net, time and x/net/idna are trusted (decoding API answers and stored lines, IDNA forms of terms)",
+        "the query log compares stored instants only with each other and with older_than, so replacing the "
+        "time.Now() stamp of an entry right after Add is equivalent to running at that instant; the only clock "
+        "comparison (rotation due) is made deterministic by placing all entries years in the past",
+        "a flush started by Add finishes within 20 s (else the run is inconclusive, never a violation)",
+    ],
+    "env": {"GOGC": "1000"},
+    "require_classes": {"thorough": [
+        "history:rotation", "history:rotation_ages_out_entries", "history:restart", "history:clear",
+        "history:logging_disabled_for_a_while", "history:memory_only", "history:mem_size_0",
+        "history:final_locations=3", "layout:locations=3",
+        "paged_cursor:page_border_on_memory/file_boundary", "paged_cursor:page_border_on_file/rotated_boundary",
+        "paged_cursor:page_border_on_memory/rotated_boundary", "paged_cursor:page_straddles_boundary",
+        "paged_offset:page_border_on_memory/file_boundary", "paged_offset:page_straddles_boundary",
+        "nontrivial:filtered_paged_read_across_boundary", "nontrivial:paged_read_across_memory_file_and_rotated_file",
+        "metamorphic:same_form_memory->file", "metamorphic:same_form_file->rotated",
+        "filter:idn_unicode_labels", "filter:idn_unicode_exact", "filter:clientname_substring", "filter:clientid_exact",
+        "filter:ip_exact", "filter:host_exact", "filter:status_only",
+        "params:hostile_limit", "params:hostile_offset", "params:hostile_older_than", "params:hostile_search",
+        "params:status_200", "params:status_400",
+        "stored_line:dnsrewrite_payload", "stored_line:several_rules",
+    ]},
     "claimed": False,
 }
